@@ -48,7 +48,7 @@ def mret(v):
         return 'none'
     if v is False:
         return 'False'
-    if isinstance(v, dict) and not v:
+    if isinstance(v, wc.ToContext):
         return 'ctx'
     if isinstance(v, int):
         return 'v%d' % v
@@ -58,9 +58,18 @@ def mret(v):
 def build_workchain(outline, oracle):
     ns = {}
 
-    def mk_step(i, ret):
+    def mk_step(i, ret, aw='none'):
         def s(self):
+            if self.inputs['dflt'] != 'd0':          # steps depend on persisted state only: here a defaulted input
+                raise AssertionError('parsed input lost: %r' % (self.inputs,))
             self.ctx.setdefault('trace', []).append(['s', i])
+            if aw != 'none':
+                fut = plumpy.Future()                    # something to wait for (already there when the step hands it over)
+                fut.set_result('r%d' % i)
+                if aw == 'call':
+                    self.to_context(**{'a%d' % i: fut})
+                else:
+                    return wc.ToContext(**{'a%d' % i: fut})
             return pyret(ret)
         s.__name__ = 's%d' % i
         return s
@@ -78,7 +87,7 @@ def build_workchain(outline, oracle):
     def collect(body):
         for n in body:
             if n['t'] == 'step':
-                ns['s%d' % n['id']] = mk_step(n['id'], n['ret'])
+                ns['s%d' % n['id']] = mk_step(n['id'], n['ret'], n.get('aw', 'none'))
             elif n['t'] == 'while':
                 ns['p%d' % n['pred']] = mk_pred(n['pred'])
                 collect(n['body'])
@@ -111,6 +120,7 @@ def build_workchain(outline, oracle):
 
     def define(cls, spec):
         super(klass, cls).define(spec)
+        spec.input('dflt', default='d0')
         spec.outline(*cmds(cls, outline['body']))
     ns['define'] = classmethod(define)
     klass = type('GenWC', (plumpy.WorkChain,), ns)
@@ -155,31 +165,100 @@ def through(bundle, medium):
     raise ValueError(medium)
 
 
-def run_outline(outline, oracle, crash_at=(), medium='pickle', max_units=200):
-    """-> dict(units=[[call,...],...], result, state, restores). One unit = one step() in RUNNING state."""
+class CustomLoader(plumpy.DefaultObjectLoader):
+    """An object loader with names of its own: what it saved only it can load (C07: 'with the default or a custom object loader')."""
+
+    _inner = plumpy.DefaultObjectLoader()
+
+    def identify_object(self, obj):
+        return 'custom|' + self._inner.identify_object(obj)
+
+    def load_object(self, identifier):
+        if not identifier.startswith('custom|'):
+            raise ValueError('not a name of the custom loader: %r' % (identifier,))
+        return self._inner.load_object(identifier[len('custom|'):])
+
+
+class _Store:
+    """Where a checkpoint lives between the moment it is taken and the moment it is loaded: a serialisation medium, or one of
+    the library's persisters ('mem': InMemoryPersister, 'pfile': PicklePersister in a scratch directory)."""
+
+    def __init__(self, medium, loaders='default'):
+        self.medium = medium
+        self.loaders = loaders
+        self.nsaved = 0
+        self.kept = None
+        self.dir = None
+        if medium == 'mem':
+            self.persister = plumpy.InMemoryPersister()
+        elif medium == 'pfile':
+            import tempfile
+            self.dir = tempfile.mkdtemp(prefix='verif-pfile-')
+            self.persister = plumpy.PicklePersister(self.dir)
+
+    def save(self, proc):
+        if self.medium in ('mem', 'pfile'):
+            self.persister.save_checkpoint(proc)
+            self.kept = proc.pid
+        else:
+            # loaders = 'custom': every checkpoint is saved with the custom loader; 'alternate': every other one
+            custom = self.loaders == 'custom' or (self.loaders == 'alternate' and self.nsaved % 2 == 1)
+            self.nsaved += 1
+            self.kept = dump(plumpy.Bundle(proc, plumpy.LoadSaveContext(loader=CustomLoader())) if custom else plumpy.Bundle(proc), self.medium)
+
+    def load(self):
+        if self.medium in ('mem', 'pfile'):
+            return self.persister.load_checkpoint(self.kept)
+        return load(self.kept, self.medium)
+
+    def close(self):
+        if self.dir:
+            import shutil
+            shutil.rmtree(self.dir, ignore_errors=True)
+
+
+def run_outline(outline, oracle, crash_at=(), medium='pickle', max_units=200, lag=0, loaders='default'):
+    """-> dict(units=[[call,...],...], result, state, restores). One unit = one step() in RUNNING state.
+    At a unit boundary in crash_at the process is checkpointed; `lag` units later the running instance is abandoned and the
+    checkpoint loaded in a fresh event loop (lag > 0: the work since the checkpoint is lost and done again)."""
     loop = vloop.install()
     cls = build_workchain(outline, oracle)
     proc = cls()
     units = []
+    waits = []
     restores = 0
     roundtrip_bad = []
     crashed = set()
     seen = 0
     n = 0
-    while not proc.has_terminated():
+    store = _Store(medium, loaders)
+    pending = None            # unit index at which the kept checkpoint was taken
+    # with loaders other than the default ONE load context (it names no loader) serves every load of the run, as a launcher's does:
+    # each bundle must be loaded with the loader recorded in it
+    shared = plumpy.LoadSaveContext(loop=loop) if loaders != 'default' else None
+    try:
+      while not proc.has_terminated():
         n += 1
         if n > max_units:
             raise RuntimeError('runaway workchain')
-        if proc.state == ProcessState.RUNNING and len(units) in crash_at and len(units) not in crashed:
+        if proc.state == ProcessState.RUNNING and len(units) in crash_at and len(units) not in crashed and pending is None:
             crashed.add(len(units))
-            bundle = through(plumpy.Bundle(proc), medium)
+            store.save(proc)
+            pending = len(units)
+        if proc.state == ProcessState.RUNNING and pending is not None and len(units) == pending + lag:
+            pending = None
+            bundle = store.load()
             del proc                                    # the running instance is abandoned
-            loop = vloop.install()                      # ... and the checkpoint continued in a fresh event loop
-            proc = bundle.unbundle(plumpy.LoadSaveContext(loop=loop))
+            if shared is None:
+                loop = vloop.install()                  # ... and the checkpoint continued in a fresh event loop
+            proc = bundle.unbundle(shared if shared is not None else plumpy.LoadSaveContext(loop=loop))
             restores += 1
+            seen = len(proc.ctx.__dict__.get('trace', []))
             # C07: saving what was just loaded gives the same bundle
             from . import core_real
-            d = core_real.bundle_diff(bundle, through(plumpy.Bundle(proc), medium))
+            ref = store.load() if medium in ('mem', 'pfile') else bundle
+            again = plumpy.Bundle(proc, plumpy.LoadSaveContext(loader=CustomLoader())) if 'custom|' in str(dict(ref).get('!!meta', '')) else plumpy.Bundle(proc)
+            d = core_real.bundle_diff(ref, through(again, medium if medium not in ('mem', 'pfile') else 'copy'))
             if d:
                 roundtrip_bad.append([len(units), [list(map(str, x)) for x in d[:3]]])
         was_running = proc.state == ProcessState.RUNNING
@@ -187,10 +266,13 @@ def run_outline(outline, oracle, crash_at=(), medium='pickle', max_units=200):
         if was_running:
             trace = list(proc.ctx.__dict__.get('trace', []))
             units.append([list(c) for c in trace[seen:]])
+            waits.append(proc.state == ProcessState.WAITING)      # the unit ended in a Wait for what it registered
             seen = len(trace)
+    finally:
+        store.close()
     res = None
     state = proc.state.name
     if proc.state == ProcessState.FINISHED:
         res = mret(proc.result())
-    return {'units': units, 'result': res, 'state': state, 'restores': restores, 'roundtrip_bad': roundtrip_bad,
+    return {'units': units, 'waits': waits, 'result': res, 'state': state, 'restores': restores, 'roundtrip_bad': roundtrip_bad,
             'exception': repr(proc.exception()) if proc.exception() else None}
